@@ -56,13 +56,16 @@ PARTIAL = ('proved at program level (parser trees inside the writer domain of C0
            'rewrites the run at the same place - is written back byte for byte): idempotence at TOKEN level; C10_idempotent: idempotence on TEXTS for the models (source of the reference dialect, lexer model, '
            'parser model, writer model: the lexer model reads luafmt output into a formatted_as token list, gaps_tidy again; the parse of '
            'the second pass and its domain - writable, no trailing separator - stay hypotheses: the parser on re-spaced tokens is not '
-           'proved); C10_reindent_bytes_partial: re-indentation invariance from source bytes with the relation between the two sources stated on '
-           'their REFERENCE tokens (ref_reindent_equiv: same code tokens of Spec/LuaLex.v, runs equal after canon_ws and the removal of '
-           'line-edge blanks); C10_lexer_trivia_tidy: trivia_tidy holds of all lexer output (C10_indent_text: C10_indent from bytes '
+           'proved); C10_reindent_bytes: re-indentation invariance from source BYTES with the monitor\'s own relation as the hypothesis '
+           '(Spec.FmtShape.same_modulo_line_edges src1 src2 = Some true; both sources in the reference dialect, lexed, parsed to the end, '
+           'writable, no trailing separator, gaps_tidy - the parse of the second layout stays a hypothesis); it composes '
+           'C10_edges_to_ref_equiv (same_modulo_line_edges -> ref_reindent_equiv, no restriction on the sources: the two reference '
+           'readers Spec/FmtShape.v and Spec/LuaLex.v agree on where white space, line ends, comments and strings are - '
+           'C10_readers_agree_on_trivia - the code bytes between are the same and are read as the same tokens, edge_norm against '
+           'strip_line_edges o canon_ws run by run) with C10_reindent_bytes_partial (the relation stated on the REFERENCE tokens, '
+           'ref_reindent_equiv: same code tokens of Spec/LuaLex.v, runs equal after canon_ws and the removal of line-edge blanks); C10_lexer_trivia_tidy: trivia_tidy holds of all lexer output (C10_indent_text: C10_indent from bytes '
            'without it); gaps_tidy does NOT hold of all lexer output (C10_gaps_tidy_not_for_every_source: a two-line block comment in '
-           'the middle of a line) and stays a hypothesis, as does codes_tidy (multi-line strings); NOT proved: '
-           'Spec.FmtShape.same_modulo_line_edges src1 src2 = Some true -> ref_reindent_equiv (the reference reader of Spec/FmtShape.v '
-           'against the reference lexer of Spec/LuaLex.v, and edge_norm against strip_line_edges o canon_ws); proved and '
+           'the middle of a line) and stays a hypothesis, as does codes_tidy (multi-line strings); proved and '
            'unbounded: every run-level statement about the white-space pipeline, the whole-output clauses relative to an abstract '
            'chunk list (C10_*_partial)')
 ASSUMPTIONS = ['indentwidth is an integer (0-8 in the monitor domain); programs are those on which luafmt succeeds (C09 covers success)',
@@ -106,7 +109,11 @@ CLAIM = dict(
           "parser model reads it to the end inside the domain luafmt writes the same text again; Proofs/FmtRelexIdem.v on top of the "
           "re-lexing theorem of C09_same_code); C10_lexer_trivia_tidy, C10_indent_text, C10_lexer_reindent_equiv and "
           "C10_reindent_bytes_partial (re-indentation invariance from source bytes for two sources whose reference token lists have the "
-          "same code tokens and runs equal modulo line-edge blanks; Proofs/FmtRelexReindent.v); proved by re-running the walk induction with the counter and the token-stream depth state threaded "
+          "same code tokens and runs equal modulo line-edge blanks; Proofs/FmtRelexReindent.v); C10_edges_to_ref_equiv (two sources of "
+          "the reference dialect related by the monitor's byte-level test Spec.FmtShape.same_modulo_line_edges = Some true have such "
+          "reference token lists; Proofs/FmtShapeBridge*.v: both reference readers refine one skeleton reader, "
+          "C10_readers_agree_on_trivia) and C10_reindent_bytes (their composition: the re-indentation clause from source bytes with "
+          "same_modulo_line_edges as the hypothesis relating the two sources, both parses inside the writer domain); proved by re-running the walk induction with the counter and the token-stream depth state threaded "
           "(Proofs/TokenDepthProofs.v, WriterCursorD.v, AstWriterDepth.v, FmtLineEnd.v). Regex sources, guards, replacement expressions, order, and the whole function text "
           "are regenerated from lua.py on every run and pinned. Tie: the extracted model equals the real method on ALL runs of length "
           "<= 5 (thorough 6) over {space,tab,\\n,\\r,-,/,a} x 4 positions x 3 (width,depth), on random long runs, and on every "
@@ -118,8 +125,9 @@ CLAIM = dict(
           "one exclusion (a trailing table field separator - there the "
           "statement is false: `x={1 / ,}` is written with the comma at column 0, C10_indent_trailing_sep_refuted, same on the real "
           "luafmt); re-indentation invariance is proved at TOKEN level (C10_reindent_invariant: same significant tokens, runs equal "
-          "modulo line-edge blanks; both layouts parsed to the end inside the writer domain); that the lexer maps texts related by the "
-          "byte-level same_modulo_line_edges to such token lists, that the depth read back from the OUTPUT text is the same, and "
+          "modulo line-edge blanks; both layouts parsed to the end inside the writer domain) and from source BYTES with the monitor's "
+          "byte-level relation same_modulo_line_edges as the hypothesis (C10_reindent_bytes; that the second layout parses inside the "
+          "domain stays a hypothesis); that the depth read back from the OUTPUT text is the same, and "
           "that luafmt's output re-lexes to a token list spelled as the formatting (the hypothesis formatted_as of the token-level "
           "idempotence theorem C10_idempotent_tokens) are OBSERVED by the extracted monitor on real output (outputs equal, fmt(fmt)=fmt), "
           "not proved: they need the lexer on re-indented / written text. Three genuine "
